@@ -200,7 +200,7 @@ type Keyring struct {
 // NewKeyring derives deterministic keys for the given names.
 func NewKeyring() *Keyring {
 	k := &Keyring{sk: map[string]types.PrivateKey{}, names: map[types.Address]string{}, Custom: map[string]types.SpendPolicy{}, CustomUC: map[string]types.UnlockConditions{}}
-	for i, n := range []string{"A", "B", "C", "F", "M", "R", "H", "X", "Y"} {
+	for i, n := range []string{"A", "B", "C", "F", "M", "R", "H", "X", "Y", "Z"} {
 		seed := make([]byte, 32)
 		seed[0] = byte(i + 1)
 		seed[31] = 0x5a
@@ -249,6 +249,9 @@ func keyName(n string) string {
 func (k *Keyring) UC(n string) types.UnlockConditions {
 	if uc, ok := k.CustomUC[n]; ok {
 		return uc
+	}
+	if n == "Z" {
+		return types.UnlockConditions{} // no keys, no signatures required: anyone can spend
 	}
 	if kind, v, ok := lockOf(n); ok && kind == 'T' {
 		uc := types.StandardUnlockConditions(k.PK("A"))
